@@ -9,11 +9,12 @@ import (
 )
 
 // The JSON codecs of Request, Decision and Diagnostic against the Coq model Impl/RequestJson.v (on JSON trees).
-//   rjsonenc: <req>       -> (tree <json tree of json.Marshal(Request)>)
-//   rjsondec: <json tree> -> (ok (req p a r c)) | (err)
-//   djsonenc: (diag (reasons (r xID xFILE off line col)...) (errors (e xID xFILE off line col xMSG)...)) -> (tree ...)
-//   djsondec: <json tree> -> (ok (diag ...)) | (err)
-//   decjson:  <json tree> -> (decision allow|deny|err)
+//
+//	rjsonenc: <req>       -> (tree <json tree of json.Marshal(Request)>)
+//	rjsondec: <json tree> -> (ok (req p a r c)) | (err)
+//	djsonenc: (diag (reasons (r xID xFILE off line col)...) (errors (e xID xFILE off line col xMSG)...)) -> (tree ...)
+//	djsondec: <json tree> -> (ok (diag ...)) | (err)
+//	decjson:  <json tree> -> (decision allow|deny|err)
 func init() {
 	kinds["rjsonenc"] = runRJSONEnc
 	kinds["rjsondec"] = runRJSONDec
